@@ -54,11 +54,12 @@ def err_name(e):
 
 
 def float_token(x):
+    """canonical token of a float: the Java-style literal (independent of cassis' formatter)"""
     if math.isnan(x):
-        return "nan"
+        return "NaN"
     if math.isinf(x):
-        return "inf" if x > 0 else "-inf"
-    return repr(float(x))
+        return "Infinity" if x > 0 else "-Infinity"
+    return repr(float(x)).upper().replace("E+", "E")
 
 
 def token_float(t):
@@ -319,6 +320,31 @@ class Session:
 
     def op_fs_covered_text(self, o):
         return text_to_cps(self.fss[o["fs"]].get_covered_text())
+
+    def op_xmi_save(self, o):
+        from harness import refio
+        ci, h = self.handles[o["h"]]
+        kw = {}
+        if "pretty" in o:
+            kw["pretty_print"] = o["pretty"]
+        text = h.to_xmi(**kw)
+        self.last_text = text
+        return refio.canon_doc(refio.read_xmi(text))
+
+    def op_xmi_load(self, o):
+        from cassis import load_cas_from_xmi
+        from harness import refio
+        text = refio.write_xmi(o["doc"], o.get("layout"))
+        cas = load_cas_from_xmi(text, typesystem=self.tss[o["ts"]], lenient=o.get("lenient", False))
+        self.cass.append(cas)
+        self.cas_ts.append(o["ts"])
+        self.handles.append((len(self.cass) - 1, cas))
+        return len(self.handles) - 1
+
+    def op_cas_dump(self, o):
+        from harness import dump
+        ci, h = self.handles[o["h"]]
+        return dump.dump_cas(h, fine=o.get("fine", False))
 
     def op_cas_new(self, o):
         ts = self.tss[o["ts"]]
